@@ -34,10 +34,15 @@ def spec_check(chk, cfg, hist, outs, states):
     window = []
     released = 0
     switches = 0
+    ghost_best = -1e8       # the property's own record of "the best minimum return recorded so far" (not read from the implementation)
     for i, ((L, ret), (u, tr), (before, after)) in enumerate(zip(hist, outs, states)):
         window.append((L, ret))
         wsum = sum(l for l, _ in window)
         wmin = min(r for _, r in window)
+        if float(before[4]) != float(ghost_best):
+            chk.fail("C15:assess:best-minimum-record", "the recorded best minimum return is not the minimum of the last accepted window (times the reset "
+                     "weight once the long window started)", {"case": case, "call": i, "recorded": before[4], "expected": float(ghost_best)})
+            return
         best_before, maxeps_before = before[4], before[2]
         released += tr
         if released + after[1] != sum(l for l, _ in hist[: i + 1]):
@@ -69,6 +74,10 @@ def spec_check(chk, cfg, hist, outs, states):
         elif tr > 0 and before[5] < cfg[2] <= before[5] + tr and cfg[1] != before[2]:
             chk.fail("C15:assess:switch-missed", "threshold crossed without switching to the long window", {"case": case, "call": i})
             return
+        if u:
+            ghost_best = float(wmin)
+        if tr > 0 and before[5] < cfg[2] <= before[5] + tr:      # the release that crosses the threshold starts the long window
+            ghost_best = ghost_best * float(cfg[0])
         if tr > 0:
             if (after[0], after[1], after[3]) != (0, 0, 1e8):
                 chk.fail("C15:assess:reset", "window counters not reset after a release", {"case": case, "call": i, "state": after})
